@@ -85,6 +85,10 @@ static void *v_memmove(void *dst, const void *src, size_t n)
 #define OP_RMNSEC 7
 #define OP_RMTSEC 8
 #define OP_SETOPT_TEXT 9
+#ifndef CTXF
+#define CTXF 0 /* flags of the context (concrete per obligation): 0 or CFGF_NOCASE */
+#endif
+#define SAME_TITLE(c, d) ((c) == (d) || ((CTXF & CFGF_NOCASE) && ((c) | 0x20) == ((d) | 0x20) && (((c) | 0x20) >= 'a' && ((c) | 0x20) <= 'z')))
 #define OP_SETNINT_VETO 10 /* cfg_setnint() by name with a pre-set validation callback */
 #define OP_SETNSTR_VETO 11 /* cfg_setnstr() by name, value a string or NULL, index symbolic */
 #define OP_SETNFLOAT_VETO 12 /* cfg_setnfloat() by name, index symbolic */
@@ -152,7 +156,7 @@ static void build(void)
 
 		O->subopts = sub;
 	}
-	init_cfg(&root, "root", opts, CFGF_NONE);
+	init_cfg(&root, "root", opts, CTXF);
 	alloc_values(O, NV);
 	for (i = 0; i < NV; i++) {
 		pre_cell[i] = O->values[i];
@@ -176,7 +180,7 @@ static void build(void)
 		} else if (type == CFGT_SEC) {
 			char t[2] = { (char)('A' + i), 0 };
 
-			O->values[i]->section = mk_section2("o", (fl & CFGF_TITLE) ? t : NULL, CFGF_NONE);
+			O->values[i]->section = mk_section2("o", (fl & CFGF_TITLE) ? t : NULL, CTXF);
 			pre_sec[i] = O->values[i]->section;
 		}
 	}
@@ -470,7 +474,7 @@ int main(void)
 		int exists = 0;
 
 		for (i = 0; i < NV; i++)
-			if (vin_title == 'A' + i)
+			if (SAME_TITLE(vin_title, 'A' + i)) /* in a case-insensitive context titles are compared without case */
 				exists = 1;
 		s = cfg_addtsec(&root, "o", t);
 		if (KIND != KI_SECT && KIND != KI_SECM && KIND != KI_SEC) {
@@ -524,7 +528,7 @@ int main(void)
 		rc = cfg_opt_rmtsec(O, t);
 		if (KIND == KI_SECT)
 			for (i = 0; i < NV; i++)
-				if (vin_title == 'A' + i)
+				if (hit < 0 && SAME_TITLE(vin_title, 'A' + i))
 					hit = (int)i;
 #endif
 		if (hit < 0) {
